@@ -2,9 +2,12 @@ package main
 
 import (
 	"go/ast"
+	"go/constant"
 	"go/token"
+	"path/filepath"
 	"sort"
 	"strconv"
+	"strings"
 )
 
 // extractAll lists, per package, the facts the Lean model depends on. Each block is added when the
@@ -14,63 +17,122 @@ func extractAll(root string, o *out) {
 	env := dnsdata.topLevel()
 	o.sb.WriteString("/-! dnsdata/data.go -/\n")
 	for _, n := range []string{"LongTTL", "ShortTTL", "LinkTTL", "NUMFIELDS"} {
-		o.nat("dnsdata_"+n, need(env, "dnsdata", n))
+		o.try("dnsdata_"+n, func() { o.nat("dnsdata_"+n, need(env, "dnsdata", n)) })
 	}
 	for _, n := range []string{"SEP", "NSEP", "RangePointKeyMarker", "FeaturesKey", "ResourceRecordsKeyMarker"} {
-		o.bytes("dnsdata_"+n, need(env, "dnsdata", n))
+		o.try("dnsdata_"+n, func() { o.bytes("dnsdata_"+n, need(env, "dnsdata", n)) })
 	}
 
 	o.sb.WriteString("\n/-! dnsserver/handler.go -/\n")
 	dnsserver := load(root, "dnsserver")
 	denv := dnsserver.topLevel()
-	o.nat("dnsserver_DefaultMaxAnswer", need(denv, "dnsserver", "DefaultMaxAnswer"))
-	// the format string of the response-cache key: first argument of the fmt.Sprintf call assigned
-	// to `cacheKey` in ServeDNSWithRCODE
-	o.str("dnsserver_cacheKeyFormat", sprintfFormatAssignedTo(dnsserver, "FBDNSDB.ServeDNSWithRCODE", "cacheKey"))
+	o.try("dnsserver_DefaultMaxAnswer", func() {
+		o.nat("dnsserver_DefaultMaxAnswer", need(denv, "dnsserver", "DefaultMaxAnswer"))
+	})
+	// the format string of the response-cache key: the one fmt.Sprintf call of the package that
+	// formats a location id (`<x>.LocID` among its arguments), wherever it lives (in ServeDNSWithRCODE
+	// or in a helper it calls)
+	// optional: the key strings of the running cache are compared with the model's on every run
+	// (C12 `hist`/`race` ops, `keys=`)
+	o.optStr("dnsserver_cacheKeyFormat", func() string { return sprintfFormatOver(dnsserver, "LocID") })
 
 	o.sb.WriteString("\n/-! dnsdata/rdb -/\n")
 	rdb := load(root, "dnsdata/rdb")
 	renv := rdb.topLevel()
-	o.nat("rdb_DefaultBatchSize", need(renv, "rdb", "DefaultBatchSize"))
-	o.nat("rdb_NumberOfIterators", need(renv, "rdb", "NumberOfIterators"))
+	for _, n := range []string{"DefaultBatchSize", "NumberOfIterators"} {
+		o.try("rdb_"+n, func() { o.nat("rdb_"+n, need(renv, "rdb", n)) })
+	}
 
-	// source-order trace of lock operations and accesses to `samples` in the bodies of the sliding
-	// window's cleaner, Add and Samples ("Lock" "Unlock" "RLock" "RUnlock" "deferUnlock" "R" "W"):
-	// the sequential window model is the code only if each body is one critical section
+	// source-order trace of lock operations and accesses ("Lock" "Unlock" "RLock" "RUnlock"
+	// "deferUnlock" "R" "W", "call:<f>"); calls of other methods of the same receiver are inlined.
 	// the reader acquisition: pointer read, reference count increment (db.NewReader) and generation
 	// read must all happen inside one shared section of reloadMu
-	o.strs("dnsserver_acquireReaderGen_trace", lockTrace(dnsserver, "FBDNSDB.acquireReaderGen", "reloadMu", "dnsdb", "NewReader"))
+	o.try("dnsserver_acquireReaderGen_trace", func() {
+		o.strs("dnsserver_acquireReaderGen_trace", lockTrace(dnsserver, "FBDNSDB.acquireReaderGen", "reloadMu", "dnsdb", "NewReader"))
+	})
 	// the reload: everything from reading the served DB through db.Reload, the pointer swap and the
 	// cache purge inside one exclusive section of reloadMu
-	o.strs("dnsserver_Reload_trace", lockTrace(dnsserver, "FBDNSDB.Reload", "reloadMu", "dnsdb", "Reload", "Purge"))
-	// fbserver/any.go: the fields of the synthesized HINFO answer (composite literals in ServeDNS)
+	o.try("dnsserver_Reload_trace", func() {
+		o.strs("dnsserver_Reload_trace", lockTrace(dnsserver, "FBDNSDB.Reload", "reloadMu", "dnsdb", "Reload", "Purge"))
+	})
+	// fbserver/any.go: the fields of the synthesized HINFO answer (the one HINFO composite literal
+	// of the file, with its header; literals or constants of the package)
 	o.sb.WriteString("\n/-! fbserver/any.go -/\n")
 	fbserver := load(root, "fbserver")
-	anyFn := fbserver.funcDecl("anyHandler.ServeDNS")
-	o.str("fbserver_any_hinfo_cpu", compositeField(fbserver, anyFn, "HINFO", "Cpu"))
-	o.str("fbserver_any_hinfo_os", compositeField(fbserver, anyFn, "HINFO", "Os"))
-	o.str("fbserver_any_hinfo_ttl", compositeField(fbserver, anyFn, "RR_Header", "Ttl"))
+	// optional: the reply to ANY is compared field by field over real sockets on every run (C20)
+	o.optStr("fbserver_any_hinfo_cpu", func() string { return compositeField(fbserver, "HINFO", "Cpu") })
+	o.optStr("fbserver_any_hinfo_os", func() string { return compositeField(fbserver, "HINFO", "Os") })
+	o.optStr("fbserver_any_hinfo_ttl", func() string { return compositeField(fbserver, "RR_Header", "Ttl") })
 
 	// db/answer.go dnsLabelWildsafe: the byte classes that let a wildcard stretch across a label
 	o.sb.WriteString("\n/-! db/answer.go -/\n")
 	dbp := load(root, "db")
-	o.strs("db_wildsafe_classes", wildsafeClasses(dbp))
+	// optional: the 256-entry table is read off the running function on every run (C01 `wildsafe` op)
+	o.optStrs("db_wildsafe_classes", func() []string { return wildsafeClasses(dbp) })
+	// metrics/swindow.go: the sequential window model is the code only if each body is one critical
+	// section around its accesses to `samples`
 	o.sb.WriteString("\n/-! metrics/swindow.go -/\n")
 	metrics := load(root, "metrics")
 	for _, fn := range []string{"cleaner", "Add", "Samples"} {
-		o.strs("swindow_"+fn+"_trace", lockTrace(metrics, "slidingWindow."+fn, "mutex", "samples"))
+		o.try("swindow_"+fn+"_trace", func() {
+			o.strs("swindow_"+fn+"_trace", lockTrace(metrics, "slidingWindow."+fn, "mutex", "samples"))
+		})
 	}
 }
 
 // lockTrace lists, in source order, the calls <x>.<mutex>.{Lock,Unlock,RLock,RUnlock} (a deferred
 // call is prefixed "defer") and the reads ("R") / writes ("W") of <x>.<field> in function fn.
 func lockTrace(p *pkgInfo, fn, mutex, field string, calls ...string) []string {
-	fd := p.funcDecl(fn)
+	out := lockTraceOf(p, p.funcDecl(fn), mutex, field, calls, 0)
+	if len(out) == 0 {
+		fail("%s: no lock/field events found in %s", p.dir, fn)
+	}
+	return out
+}
+
+// recvOf returns the receiver's name and type name of a method declaration ("", "" for a function)
+func recvOf(fd *ast.FuncDecl) (name, typ string) {
+	if fd.Recv == nil || len(fd.Recv.List) != 1 {
+		return "", ""
+	}
+	t := fd.Recv.List[0].Type
+	if st, ok := t.(*ast.StarExpr); ok {
+		t = st.X
+	}
+	if id, ok := t.(*ast.Ident); ok {
+		typ = id.Name
+	}
+	if len(fd.Recv.List[0].Names) == 1 {
+		name = fd.Recv.List[0].Names[0].Name
+	}
+	return name, typ
+}
+
+// methodDecl is funcDecl without the failure: nil when the package has no such method
+func (p *pkgInfo) methodDecl(typ, name string) *ast.FuncDecl {
+	for _, f := range p.files {
+		for _, d := range f.Decls {
+			if fd, ok := d.(*ast.FuncDecl); ok && fd.Name.Name == name && fd.Body != nil {
+				if _, t := recvOf(fd); t == typ {
+					return fd
+				}
+			}
+		}
+	}
+	return nil
+}
+
+// lockTraceOf: the trace of one body. A call <recv>.<m>(...) of another method of the same receiver
+// type (not one of the tracked `calls`) is replaced by the trace of that method's body, in which a
+// deferred unlock is moved to the end (it runs when the helper returns): extracting a helper, or
+// inlining one, leaves the trace as it was.
+func lockTraceOf(p *pkgInfo, fd *ast.FuncDecl, mutex, field string, calls []string, depth int) []string {
 	type ev struct {
 		pos token.Pos
-		s   string
+		s   []string
 	}
 	var evs []ev
+	recvName, recvTyp := recvOf(fd)
 	writes := map[*ast.SelectorExpr]token.Pos{}
 	deferred := map[*ast.CallExpr]bool{}
 	ast.Inspect(fd.Body, func(nd ast.Node) bool {
@@ -85,9 +147,11 @@ func lockTrace(p *pkgInfo, fn, mutex, field string, calls ...string) []string {
 			deferred[x.Call] = true
 		case *ast.CallExpr:
 			if se, ok := x.Fun.(*ast.SelectorExpr); ok {
+				tracked := false
 				for _, c := range calls {
 					if se.Sel.Name == c {
-						evs = append(evs, ev{x.End(), "call:" + c}) // after its arguments
+						evs = append(evs, ev{x.End(), []string{"call:" + c}}) // after its arguments
+						tracked = true
 					}
 				}
 				if in, ok := se.X.(*ast.SelectorExpr); ok && in.Sel.Name == mutex {
@@ -95,15 +159,34 @@ func lockTrace(p *pkgInfo, fn, mutex, field string, calls ...string) []string {
 					if deferred[x] {
 						name = "defer" + name
 					}
-					evs = append(evs, ev{x.Pos(), name})
+					evs = append(evs, ev{x.Pos(), []string{name}})
+				}
+				if id, ok := se.X.(*ast.Ident); ok && !tracked && recvName != "" && id.Name == recvName && depth < 4 {
+					if callee := p.methodDecl(recvTyp, se.Sel.Name); callee != nil && callee != fd {
+						sub := lockTraceOf(p, callee, mutex, field, calls, depth+1)
+						var body, tail []string
+						for _, e := range sub {
+							if strings.HasPrefix(e, "defer") {
+								tail = append([]string{strings.TrimPrefix(e, "defer")}, tail...)
+							} else {
+								body = append(body, e)
+							}
+						}
+						if len(sub) > 0 {
+							if deferred[x] {
+								fail("%s: deferred call of %s.%s, which touches %s/%s, is not understood", p.dir, recvTyp, se.Sel.Name, mutex, field)
+							}
+							evs = append(evs, ev{x.End(), append(body, tail...)})
+						}
+					}
 				}
 			}
 		case *ast.SelectorExpr:
 			if x.Sel.Name == field {
 				if end, ok := writes[x]; ok {
-					evs = append(evs, ev{end, "W"})
+					evs = append(evs, ev{end, []string{"W"}})
 				} else {
-					evs = append(evs, ev{x.Pos(), "R"})
+					evs = append(evs, ev{x.Pos(), []string{"R"}})
 				}
 			}
 		}
@@ -112,12 +195,45 @@ func lockTrace(p *pkgInfo, fn, mutex, field string, calls ...string) []string {
 	sort.SliceStable(evs, func(i, j int) bool { return evs[i].pos < evs[j].pos })
 	var out []string
 	for _, e := range evs {
-		out = append(out, e.s)
-	}
-	if len(out) == 0 {
-		fail("%s: no lock/field events found in %s", p.dir, fn)
+		out = append(out, e.s...)
 	}
 	return out
+}
+
+// sprintfFormatOver finds the one `fmt.Sprintf("<literal>", ...)` call of the package with an argument
+// that is a selector `<x>.<sel>`, and returns the literal.
+func sprintfFormatOver(p *pkgInfo, sel string) string {
+	found := ""
+	n := 0
+	for _, f := range p.files {
+		ast.Inspect(f, func(nd ast.Node) bool {
+			call, ok := nd.(*ast.CallExpr)
+			if !ok || len(call.Args) < 2 {
+				return true
+			}
+			fs, ok := call.Fun.(*ast.SelectorExpr)
+			if !ok || fs.Sel.Name != "Sprintf" {
+				return true
+			}
+			lit, ok := call.Args[0].(*ast.BasicLit)
+			if !ok || lit.Kind != token.STRING {
+				return true
+			}
+			for _, a := range call.Args[1:] {
+				if se, ok := a.(*ast.SelectorExpr); ok && se.Sel.Name == sel {
+					if v, err := strconv.Unquote(lit.Value); err == nil {
+						found = v
+						n++
+					}
+				}
+			}
+			return true
+		})
+	}
+	if n != 1 {
+		fail("%s: expected exactly one fmt.Sprintf(\"...\", …) over a .%s argument, found %d", p.dir, sel, n)
+	}
+	return found
 }
 
 // sprintfFormatAssignedTo finds `<name> = fmt.Sprintf("<literal>", ...)` in function fn.
@@ -160,45 +276,53 @@ func sprintfFormatAssignedTo(p *pkgInfo, fn, name string) string {
 	return found
 }
 
-// compositeField returns the source text of field `field` in the first composite literal of type
-// <pkg>.<typ> (or <typ>) inside fn, unquoted if it is a string literal.
-func compositeField(p *pkgInfo, fn *ast.FuncDecl, typ, field string) string {
-	found, ok := "", false
-	ast.Inspect(fn.Body, func(nd ast.Node) bool {
-		cl, is := nd.(*ast.CompositeLit)
-		if !is || ok {
-			return true
+// compositeField returns the value of field `field` in the one composite literal of type
+// <pkg>.<typ> (or <typ>) in file any.go of the package that sets it: a literal, or a constant
+// expression over the package's own constants.
+func compositeField(p *pkgInfo, typ, field string) string {
+	found, n := "", 0
+	env := p.topLevel()
+	for fname, f := range p.files {
+		if filepath.Base(fname) != "any.go" {
+			continue
 		}
-		name := ""
-		switch t := cl.Type.(type) {
-		case *ast.SelectorExpr:
-			name = t.Sel.Name
-		case *ast.Ident:
-			name = t.Name
-		}
-		if name != typ {
-			return true
-		}
-		for _, e := range cl.Elts {
-			kv, is := e.(*ast.KeyValueExpr)
+		ast.Inspect(f, func(nd ast.Node) bool {
+			cl, is := nd.(*ast.CompositeLit)
 			if !is {
-				continue
+				return true
 			}
-			if id, is := kv.Key.(*ast.Ident); is && id.Name == field {
-				if lit, is := kv.Value.(*ast.BasicLit); is {
-					found, ok = lit.Value, true
-					if lit.Kind == token.STRING {
-						if u, err := strconv.Unquote(lit.Value); err == nil {
-							found = u
+			name := ""
+			switch t := cl.Type.(type) {
+			case *ast.SelectorExpr:
+				name = t.Sel.Name
+			case *ast.Ident:
+				name = t.Name
+			}
+			if name != typ {
+				return true
+			}
+			for _, e := range cl.Elts {
+				kv, is := e.(*ast.KeyValueExpr)
+				if !is {
+					continue
+				}
+				if id, is := kv.Key.(*ast.Ident); is && id.Name == field {
+					if v, is := constValue(kv.Value, env, 0); is && v != nil {
+						if v.Kind() == constant.String {
+							found, n = constant.StringVal(v), n+1
+						} else if v.Kind() == constant.Int {
+							found, n = v.ExactString(), n+1
 						}
+					} else {
+						n += 100 // set, but not to something we can evaluate
 					}
 				}
 			}
-		}
-		return true
-	})
-	if !ok {
-		fail("%s: no literal field %s.%s in %s", p.dir, typ, field, fn.Name.Name)
+			return true
+		})
+	}
+	if n != 1 {
+		fail("%s: no single constant field %s.%s in any.go", p.dir, typ, field)
 	}
 	return found
 }
@@ -214,13 +338,17 @@ func wildsafeClasses(p *pkgInfo) []string {
 				return u
 			}
 		}
-		return "?"
+		return "<?>"
 	}
 	var walk func(e ast.Expr)
 	walk = func(e ast.Expr) {
+		if pe, ok := e.(*ast.ParenExpr); ok {
+			walk(pe.X)
+			return
+		}
 		be, ok := e.(*ast.BinaryExpr)
 		if !ok {
-			out = append(out, "?")
+			out = append(out, "<?>")
 			return
 		}
 		switch be.Op {
@@ -233,22 +361,39 @@ func wildsafeClasses(p *pkgInfo) []string {
 			if lok && rok && l.Op == token.GEQ && r.Op == token.LEQ {
 				out = append(out, lit(l.Y)+"-"+lit(r.Y))
 			} else {
-				out = append(out, "?")
+				out = append(out, "<?>")
 			}
 		case token.EQL:
 			out = append(out, lit(be.Y))
 		default:
-			out = append(out, "?")
+			out = append(out, "<?>")
 		}
 	}
 	ast.Inspect(fd.Body, func(nd ast.Node) bool {
-		if is, ok := nd.(*ast.IfStmt); ok {
-			walk(is.Cond)
+		switch x := nd.(type) {
+		case *ast.IfStmt:
+			walk(x.Cond)
+		case *ast.SwitchStmt:
+			// `switch { case c >= 'a' && c <= 'z', c == '-': ... }`
+			if x.Tag == nil {
+				for _, st := range x.Body.List {
+					if cc, ok := st.(*ast.CaseClause); ok {
+						for _, e := range cc.List {
+							walk(e)
+						}
+					}
+				}
+			}
 		}
 		return true
 	})
 	if len(out) == 0 {
 		fail("%s: dnsLabelWildsafe has no recognisable conditions", p.dir)
+	}
+	for _, c := range out {
+		if strings.Contains(c, "<?>") {
+			fail("%s: dnsLabelWildsafe is not a chain of `c >= X && c <= Y` / `c == X` tests", p.dir)
+		}
 	}
 	return out
 }
